@@ -62,6 +62,10 @@ func redisArgs(key string, op string) (string, []interface{}) {
 		return "get", []interface{}{k}
 	case "set":
 		return "set", []interface{}{k, arg}
+	case "setox":
+		return "set", []interface{}{k, arg, "NX"}
+	case "setxx":
+		return "set", []interface{}{k, arg, "XX"}
 	case "del":
 		return "del", []interface{}{k}
 	case "hincrby":
@@ -236,15 +240,19 @@ func (w *workload) genOpLocked(o *object) string {
 	switch o.typ {
 	case "kv":
 		switch {
-		case r < 30:
+		case r < 26:
 			return "incr"
-		case r < 48:
+		case r < 42:
 			return fmt.Sprintf("getset:%d", w.uniq())
-		case r < 60:
+		case r < 50:
 			return fmt.Sprintf("setnx:%d", w.uniq())
+		case r < 57:
+			return fmt.Sprintf("setox:%d", w.uniq())
+		case r < 62:
+			return fmt.Sprintf("setxx:%d", w.uniq())
 		case r < 74:
 			return "get"
-		case r < 86:
+		case r < 85:
 			return fmt.Sprintf("set:%d", w.uniq())
 		default:
 			return "del"
@@ -426,4 +434,149 @@ func histLines(id string, g []opRec) []string {
 	}
 	out = append(out, id+"\tE")
 	return out
+}
+
+// ---------------------------------------------------------------- targeted phases
+
+// newObject registers a fresh object of the given type (not one of the randomly driven active objects).
+func (w *workload) newObject(typ string) *object {
+	w.mu.Lock()
+	defer w.mu.Unlock()
+	o := &object{key: fmt.Sprintf("%s:k%d", typ, w.gen), typ: typ, budget: 1 << 30}
+	w.gen++
+	w.all = append(w.all, o)
+	return o
+}
+
+func (w *workload) uniqL() int64 {
+	w.mu.Lock()
+	defer w.mu.Unlock()
+	return w.uniq()
+}
+
+// runRaces: rounds in which ALL clients send a conditional / overwriting write on the SAME fresh key at the
+// same moment (barrier start), each through its own replica, so that the entries are committed together
+// and applied in one apply batch. At most one SET .. NX / SETNX may win; a SET .. XX after a DEL must fail.
+func runRaces(w *workload, clients []*client, until time.Time, rng *rand.Rand) int {
+	rounds := 0
+	n := len(clients)
+	for time.Now().Before(until) {
+		o := w.newObject("kv")
+		kind := rng.Intn(10)
+		ops := make([]string, n)
+		var pre []string
+		switch {
+		case kind < 5: // everybody: SET k v NX
+			for i := range ops {
+				ops[i] = fmt.Sprintf("setox:%d", w.uniqL())
+			}
+		case kind < 7: // plain SETs racing with SET NX
+			for i := range ops {
+				if i%3 == 0 {
+					ops[i] = fmt.Sprintf("set:%d", w.uniqL())
+				} else {
+					ops[i] = fmt.Sprintf("setox:%d", w.uniqL())
+				}
+			}
+		case kind < 8: // SETNX race
+			for i := range ops {
+				ops[i] = fmt.Sprintf("setnx:%d", w.uniqL())
+			}
+		default: // existing key: DELs racing with SET XX and SET NX
+			pre = []string{fmt.Sprintf("set:%d", w.uniqL())}
+			for i := range ops {
+				switch i % 3 {
+				case 0:
+					ops[i] = "del"
+				case 1:
+					ops[i] = fmt.Sprintf("setxx:%d", w.uniqL())
+				default:
+					ops[i] = fmt.Sprintf("setox:%d", w.uniqL())
+				}
+			}
+		}
+		for _, op := range pre {
+			l := int(atomic.LoadInt32(&w.leaderHint))
+			if l < 0 {
+				l = 0
+			}
+			if rec, sent := clients[0].do(l, o.key, op); sent {
+				w.record(o, rec)
+			}
+		}
+		start := make(chan struct{})
+		var wg sync.WaitGroup
+		for i, cl := range clients {
+			wg.Add(1)
+			go func(i int, cl *client) {
+				defer wg.Done()
+				target := i % len(cl.addrs)
+				cl.conn(target) // connect before the barrier
+				<-start
+				if rec, sent := cl.do(target, o.key, ops[i]); sent {
+					w.record(o, rec)
+				}
+			}(i, cl)
+		}
+		time.Sleep(200 * time.Microsecond)
+		close(start)
+		wg.Wait()
+		rounds++
+	}
+	return rounds
+}
+
+// runPairs: every client, on its own fresh objects, makes a write through the leader, waits for the
+// acknowledgement and IMMEDIATELY sends the command whose no-op shortcut would apply to the state BEFORE that
+// write through a follower (LPUSH -> LPOP, DEL -> SETNX, SREM -> SADD, SADD -> SREM): a replica that
+// answers from a local store lagging behind the acknowledged write gives a non-linearizable reply.
+func runPairs(w *workload, clients []*client, until time.Time) int {
+	var wg sync.WaitGroup
+	var rounds int32
+	for _, cl := range clients {
+		wg.Add(1)
+		go func(cl *client) {
+			defer wg.Done()
+			for time.Now().Before(until) {
+				l := int(atomic.LoadInt32(&w.leaderHint))
+				if l < 0 {
+					time.Sleep(50 * time.Millisecond)
+					continue
+				}
+				f := (l + 1 + cl.rng.Intn(len(cl.addrs)-1)) % len(cl.addrs)
+				var o *object
+				var seq []string
+				switch cl.rng.Intn(4) {
+				case 0:
+					o = w.newObject("l")
+					seq = []string{fmt.Sprintf("lpush:%d", w.uniqL()), "F:lpop"}
+				case 1:
+					o = w.newObject("kv")
+					seq = []string{fmt.Sprintf("set:%d", w.uniqL()), "del", fmt.Sprintf("F:setnx:%d", w.uniqL())}
+				case 2:
+					o = w.newObject("s")
+					seq = []string{"sadd:1", "srem:1", "F:sadd:1"}
+				default:
+					o = w.newObject("s")
+					seq = []string{"sadd:2", "F:srem:2"}
+				}
+				for _, op := range seq {
+					target := l
+					if strings.HasPrefix(op, "F:") {
+						target, op = f, op[2:]
+					}
+					rec, sent := cl.do(target, o.key, op)
+					if sent {
+						w.record(o, rec)
+					}
+					if !sent || rec.Ret < 0 {
+						break
+					}
+				}
+				atomic.AddInt32(&rounds, 1)
+			}
+		}(cl)
+	}
+	wg.Wait()
+	return int(rounds)
 }
